@@ -622,15 +622,69 @@ Atom.has_first = lambda self, c: _has(self.first, c, self.excludes)  # type: ign
 Atom.has_last = lambda self, c: _has(self.last, c, self.excludes)  # type: ignore[attr-defined]
 
 
+def _nonneg(n: Any) -> bool:
+    if isinstance(n, int):
+        return n >= 0
+    if isinstance(n, SNum):
+        lo, _ = n.bounds()
+        return lo is not None and lo >= 0
+    return False
+
+
 def _push(out: list, p: Any) -> None:
+    """Append one piece, keeping the normal form: adjacent literals joined; a repetition ``b*[n]`` (n >= 0)
+    absorbs the copies of ``b`` that stand right before or after it and a neighbouring ``b*[m]`` (m >= 0), so
+    that s*level + s*indent, s*(level + indent) and s*level + s + s are one and the same value."""
     if isinstance(p, str):
         if not p:
             return
+        if out and isinstance(out[-1], Rep) and len(out[-1].base) == 1 and isinstance(out[-1].base[0], str) and out[-1].base[0] and _nonneg(out[-1].count):
+            b = out[-1].base[0]
+            k = 0
+            while p.startswith(b, k * len(b)):
+                k += 1
+            if k:
+                out[-1] = Rep(out[-1].base, out[-1].count + k)
+                p = p[k * len(b) :]
+                if not p:
+                    return
         if out and isinstance(out[-1], str):
             out[-1] = out[-1] + p
         else:
             out.append(p)
-    elif isinstance(p, (Atom, Rep)):
+    elif isinstance(p, Atom):
+        if out and isinstance(out[-1], Rep) and out[-1].base == (p,) and _nonneg(out[-1].count):
+            out[-1] = Rep(out[-1].base, out[-1].count + 1)
+        else:
+            out.append(p)
+    elif isinstance(p, Rep):
+        if _nonneg(p.count) and out:
+            last = out[-1]
+            if isinstance(last, Rep) and last.base == p.base and _nonneg(last.count):
+                out[-1] = Rep(p.base, last.count + p.count)
+                return
+            if len(p.base) == 1:
+                b = p.base[0]
+                if isinstance(b, Atom):
+                    k = 0
+                    while out and out[-1] == b:
+                        out.pop()
+                        k += 1
+                    if k:
+                        p = Rep(p.base, p.count + k)
+                elif isinstance(b, str) and b and isinstance(last, str) and last.endswith(b):
+                    k = 0
+                    while last.endswith(b):
+                        last = last[: -len(b)]
+                        k += 1
+                    if last:
+                        out[-1] = last
+                    else:
+                        out.pop()
+                    p = Rep(p.base, p.count + k)
+                    if out and isinstance(out[-1], Rep) and out[-1].base == p.base and _nonneg(out[-1].count):
+                        out[-1] = Rep(p.base, out[-1].count + p.count)
+                        return
         out.append(p)
     else:
         raise AnalysisError(f"not a string piece: {p!r}")
